@@ -1374,3 +1374,154 @@ Proof.
   intros H. split; [now apply merge_o_created_ok|]. split; [|now apply merge_o_created_conservation].
   intros g rb. now apply merge_o_created.
 Qed.
+
+(* ================================================================ options of the out-batches when no trace numbers collide *)
+
+(* no two input entries with the same routing pair, header key and trace number *)
+Definition id3 (i : ident) : route_t * hkey_t * bytes :=
+  match i with (r, k, e) => (r, k, e_trace e) end.
+Definition no_collision (fs : list ifileo) : Prop := NoDup (map id3 (ids_in (map erase_ifile fs))).
+
+Definition hk (b : obatch) : hkey_t := hkey (ob_header b).
+
+Lemma NoDup_app_disjoint {A} (l1 l2 : list A) x : NoDup (l1 ++ l2) -> In x l1 -> In x l2 -> False.
+Proof.
+  induction l1 as [|a l1 IH]; cbn [app In]; intros Hnd H1 H2; [destruct H1|].
+  inversion Hnd as [|? ? Hna Hnd']; subst. destruct H1 as [->|H1]; [apply Hna, in_or_app; now right|now apply IH].
+Qed.
+
+Lemma NoDup_app_l {A} (l1 l2 : list A) : NoDup (l1 ++ l2) -> NoDup l1.
+Proof.
+  induction l1 as [|a l1 IH]; cbn [app]; intros H; [constructor|].
+  inversion H as [|? ? Hna Hnd]; subst. constructor; [|now apply IH].
+  intros Hin. apply Hna, in_or_app. now left.
+Qed.
+
+Lemma NoDup_app_r {A} (l1 l2 : list A) : NoDup (l1 ++ l2) -> NoDup l2.
+Proof.
+  induction l1 as [|a l1 IH]; cbn [app]; intros H; [exact H|].
+  inversion H; subst. now apply IH.
+Qed.
+
+Lemma NoDup_map_inj_in {A B} (f : A -> B) l x y : NoDup (map f l) -> In x l -> In y l -> f x = f y -> x = y.
+Proof.
+  induction l as [|a l IH]; cbn [map In]; intros Hnd Hx Hy E; [destruct Hx|].
+  inversion Hnd as [|? ? Hna Hnd']; subst. destruct Hx as [->|Hx], Hy as [->|Hy].
+  - reflexivity.
+  - exfalso. apply Hna. rewrite E. now apply in_map.
+  - exfalso. apply Hna. rewrite <- E. now apply in_map.
+  - now apply IH.
+Qed.
+
+(* without collisions an out-file holds at most one batch per header key *)
+Lemma batches_keys_nodup r bs :
+  coll_ok bs -> batches_nonempty bs -> batches_wf bs ->
+  NoDup (map id3 (ids_obatches r bs)) -> NoDup (map hk bs).
+Proof.
+  unfold coll_ok. intros Hc. induction Hc as [|a l Ha Hl IH]; intros Hne Hwf Hnd; cbn [map]; [constructor|].
+  inversion Hne as [|? ? Hna Hnl]; subst. inversion Hwf as [|? ? Hwa Hwl]; subst.
+  cbn [ids_obatches flat_map] in Hnd. fold (ids_obatches r l) in Hnd. rewrite map_app in Hnd.
+  constructor.
+  - intros Hin. apply in_map_iff in Hin as (b & Hkb & Hb).
+    rewrite Forall_forall in Ha, Hnl, Hwl. specialize (Ha b Hb).
+    assert (Hh : header_equal (ob_header a) (ob_header b) = true) by (apply header_equal_hkey; symmetry; exact Hkb).
+    destruct (ob_entries b) as [|[k v] rest] eqn:Eb; [now apply (Hnl b Hb)|].
+    assert (Hkb' : tm_contains k (ob_entries b) = true).
+    { rewrite Eb. cbn [tm_contains]. now rewrite bcmp_refl. }
+    pose proof (Ha Hh k Hkb') as Hka. apply tm_contains_in in Hka as (v' & Hv').
+    destruct Hwa as [_ Hfa]. destruct (Hwl b Hb) as [_ Hfb]. rewrite Forall_forall in Hfa, Hfb.
+    pose proof (Hfa _ Hv') as E1. cbn [fst snd] in E1.
+    assert (Hvb : In (k, v) (ob_entries b)) by (rewrite Eb; now left).
+    pose proof (Hfb _ Hvb) as E2. cbn [fst snd] in E2.
+    apply (NoDup_app_disjoint _ _ (r, hk a, k) Hnd).
+    + apply in_map_iff. exists (mkid r (ob_header a) v'). split; [unfold id3, mkid, hk; now rewrite <- E1|].
+      unfold ids_obatch. apply in_map, in_map_iff. exists (k, v'). split; [reflexivity|exact Hv'].
+    + apply in_map_iff. exists (mkid r (ob_header b) v). split.
+      * unfold id3, mkid. rewrite <- E2. unfold hk in Hkb. now rewrite Hkb.
+      * unfold ids_obatches. apply in_flat_map. exists b. split; [exact Hb|].
+        unfold ids_obatch. apply in_map, in_map_iff. exists (k, v). split; [reflexivity|exact Hvb].
+  - apply IH; auto. eapply NoDup_app_r. exact Hnd.
+Qed.
+
+Lemma state_keys_nodup st :
+  Forall (fun o => batches_good (of_batches o)) st -> state_wf st ->
+  NoDup (map id3 (ids_state st)) -> Forall (fun o => NoDup (map hk (of_batches o))) st.
+Proof.
+  induction st as [|o st IH]; intros Hg Hw Hnd; [constructor|].
+  inversion Hg as [|? ? [Hc Hne] Hg']; subst. inversion Hw as [|? ? Hwo Hw']; subst.
+  cbn [ids_state flat_map] in Hnd. fold (ids_state st) in Hnd. rewrite map_app in Hnd.
+  constructor.
+  - apply (batches_keys_nodup (of_route o)); auto. eapply NoDup_app_l. exact Hnd.
+  - apply IH; auto. eapply NoDup_app_r. exact Hnd.
+Qed.
+
+Definition hko (b : obatcho) : hkey_t := hkey (obo_header b).
+
+Lemma build_state_o_keys_nodup fs o :
+  no_collision fs -> In o (build_state_o fs) -> NoDup (map hko (ofo_batches o)).
+Proof.
+  intros Hnc Ho.
+  assert (Hnd : NoDup (map id3 (ids_state (build_state (map erase_ifile fs))))).
+  { eapply Permutation_NoDup; [|exact Hnc]. apply Permutation_map, Permutation_sym, build_state_perm. }
+  pose proof (state_keys_nodup _ (build_state_good _) (build_state_wf _) Hnd) as H.
+  rewrite <- build_state_o_erase in H. rewrite Forall_forall in H.
+  specialize (H (erase_of o) (in_map erase_of _ _ Ho)). cbn [erase_of of_batches] in H.
+  rewrite map_map in H. exact H.
+Qed.
+
+Lemma no_collision_perm fs fs' : Permutation fs fs' -> no_collision fs -> no_collision fs'.
+Proof.
+  intros Hp H. unfold no_collision in *. eapply Permutation_NoDup; [|exact H].
+  apply Permutation_map, ids_in_perm, Permutation_map, Hp.
+Qed.
+
+(* without collisions: a boolean field is set on an output batch exactly when it is set on a
+   non-empty input batch (or its file) with the same routing pair and header key *)
+Lemma merge_o_batch_exact fs c g rb i :
+  no_collision fs -> In g (merge_files_o fs c) -> In rb (rfo_batches g) ->
+  (oflag i (rbo_opts rb) = true <->
+   exists f ib, In f fs /\ In ib (fo_batches f) /\ fo_route f = rfo_route g
+                /\ hkey (ib_header (ibo_batch ib)) = hkey (rbo_header rb)
+                /\ ib_entries (ibo_batch ib) <> []
+                /\ oflag i (batch_in_opts (fo_opts f) ib) = true).
+Proof.
+  intros Hnc Hg Hrb. split; [now apply (merge_o_batch_flag_source fs c g rb i)|].
+  intros (f & ib & Hf & Hib & Hr & Hk & Hne & Hpf).
+  destruct (ib_entries (ibo_batch ib)) as [|e es] eqn:Ees; [contradiction|].
+  assert (He : In e (ib_entries (ibo_batch ib))) by (rewrite Ees; now left).
+  destruct (merge_o_entry_target fs c f ib e Hf Hib He) as (g' & rb' & Hg' & Hrb' & _ & Hr' & Hk' & Hsub).
+  (* both output batches are cut from the same stored batch *)
+  destruct (merge_o_file_from fs c g Hg) as (o & Ho & Hro & _ & Hbs).
+  destruct (merge_o_file_from fs c g' Hg') as (o' & Ho' & Hro' & _ & Hbs').
+  assert (Eo : o' = o).
+  { destruct (build_state_o_finv p_set fs orhom_set) as [Hnd _].
+    apply (NoDup_map_inj_in ofo_route (build_state_o fs)); auto. congruence. }
+  subst o'. rewrite Forall_forall in Hbs, Hbs'.
+  destruct (Hbs rb Hrb) as (b & Hb & Hhb & Hob). destruct (Hbs' rb' Hrb') as (b' & Hb' & Hhb' & Hob').
+  assert (Eb : b' = b).
+  { apply (NoDup_map_inj_in hko (ofo_batches o)); auto; [now apply (build_state_o_keys_nodup fs)|].
+    unfold hko. rewrite <- Hhb, <- Hhb'. congruence. }
+  subst b'. rewrite Hob, <- Hob'. exact (osub_oflag _ _ i Hsub Hpf).
+Qed.
+
+(* hence, without collisions, the boolean fields of the batch an entry ends up in do not depend
+   on the order of the inputs (nor on the conditions) *)
+Lemma merge_o_batch_flags_order fs fs' c c' g g' rb rb' i :
+  no_collision fs -> Permutation fs fs' ->
+  In g (merge_files_o fs c) -> In rb (rfo_batches g) ->
+  In g' (merge_files_o fs' c') -> In rb' (rfo_batches g') ->
+  rfo_route g = rfo_route g' -> hkey (rbo_header rb) = hkey (rbo_header rb') ->
+  oflag i (rbo_opts rb) = oflag i (rbo_opts rb').
+Proof.
+  intros Hnc Hp Hg Hrb Hg' Hrb' Hr Hk.
+  pose proof (merge_o_batch_exact fs c g rb i Hnc Hg Hrb) as H1.
+  pose proof (merge_o_batch_exact fs' c' g' rb' i (no_collision_perm _ _ Hp Hnc) Hg' Hrb') as H2.
+  assert (E : oflag i (rbo_opts rb) = true <-> oflag i (rbo_opts rb') = true).
+  { rewrite H1, H2. split; intros (f & ib & Hf & Hib & Hrf & Hkf & Hne & Hfl); exists f, ib;
+      (split; [|split; [exact Hib|split; [congruence|split; [congruence|split; [exact Hne|exact Hfl]]]]]).
+    - eapply Permutation_in; eauto.
+    - eapply Permutation_in; [apply Permutation_sym|]; eauto. }
+  destruct (oflag i (rbo_opts rb)), (oflag i (rbo_opts rb')); try reflexivity.
+  - symmetry. now apply E.
+  - now apply E.
+Qed.
